@@ -65,6 +65,7 @@ Definition start_guard (h : list ms_obs) (x : ms_obs) : Prop :=
       outstanding h = false /\ forall c, cfg_in h A = Some c -> kind_guard k c A h
   | MsOTxLink _ A ka =>
       outstanding h = false /\ (ka = true -> forall c, cfg_in h A = Some c -> kind_guard MsKPoll c A h)
+  | MsOSleep t (Some u) => t < u
   | _ => True
   end.
 
@@ -101,16 +102,24 @@ Proof.
 Qed.
 
 Definition nostart (x : ms_obs) : Prop :=
-  match x with MsOStart _ _ _ _ _ | MsOTxLink _ _ _ => False | _ => True end.
+  match x with MsOStart _ _ _ _ _ | MsOTxLink _ _ _ | MsOSleep _ (Some _) => False | _ => True end.
 
 Lemma GOOD_nostart h o : Forall nostart o -> GOOD h o.
 Proof.
   intros F o1 x o2 H. subst o. apply Forall_app in F as [_ F]. inversion F; subst.
-  destruct x; cbn in *; auto; contradiction.
+  destruct x; cbn in *; auto; try contradiction;
+    repeat match goal with
+           | u : option ms_time |- _ => destruct u; cbn in *; auto; try contradiction
+           end.
 Qed.
 
 Lemma local_nostart o : Forall local o -> Forall nostart o.
-Proof. apply Forall_impl. intros x; destruct x; cbn; auto. Qed.
+Proof.
+  apply Forall_impl. intros x; destruct x; cbn in *; auto; try contradiction;
+    repeat match goal with
+           | u : option ms_time |- _ => destruct u; cbn in *; auto; try contradiction
+           end.
+Qed.
 
 (* ================================================================================================
    2. The invariant
@@ -504,7 +513,11 @@ Lemma GOOD_cons_start h x rest : start_guard h x -> Forall nostart rest -> GOOD 
 Proof.
   intros G F o1 y o2 H. destruct o1 as [|z o1]; cbn [app] in H; inversion H; subst.
   - rewrite app_nil_r. exact G.
-  - apply Forall_app in F as [_ F]. inversion F; subst. destruct y; cbn in *; auto; contradiction.
+  - apply Forall_app in F as [_ F]. inversion F; subst.
+    destruct y; cbn in *; auto; try contradiction;
+    repeat match goal with
+           | u : option ms_time |- _ => destruct u; cbn in *; auto; try contradiction
+           end.
 Qed.
 
 (* from the flags of the chosen association to the guard over the history *)
@@ -538,7 +551,7 @@ Definition is_res (x : ms_obs) : Prop := match x with MsORes _ _ _ => True | _ =
 Lemma res_out_neutral o : Forall is_res o -> Forall out_neutral o.
 Proof. apply Forall_impl. intros x; destruct x; cbn; auto. Qed.
 Lemma res_nostart o : Forall is_res o -> Forall nostart o.
-Proof. apply Forall_impl. intros x; destruct x; cbn; auto. Qed.
+Proof. apply Forall_impl. intros x; destruct x; cbn; auto; contradiction. Qed.
 Lemma res_quiet o : Forall is_res o -> Forall quiet o.
 Proof. apply Forall_impl. intros x; destruct x; cbn; try contradiction. intros _. split; [reflexivity|exact I]. Qed.
 
@@ -629,6 +642,61 @@ Proof.
     intros _ H; exfalso; eapply H; reflexivity.
 Qed.
 
+(* NotBefore t is in the future: the scheduler never asks to sleep until now or the past *)
+Lemma assoc_next_task_future fuel now sys : forall a a1 o t,
+  ms_assoc_next_task fuel now sys a = (a1, o, Some (MsNNotBefore t)) -> now < t.
+Proof.
+  induction fuel as [|k IH]; intros a a1 o t; cbn [ms_assoc_next_task]; [intros H; inversion H|].
+  destruct (ms_get_next_task a now) as [|t0|nb] eqn:Eg.
+  - intros H; inversion H.
+  - destruct (ms_task_start now sys t0 a) as [[a2 o2] [t2|]]; [intros H; inversion H|].
+    destruct (ms_assoc_next_task k now sys a2) as [[a3 o3] r3] eqn:Ea.
+    intros H; inversion H; subst. eapply IH; exact Ea.
+  - intros H; inversion H; subst. eapply get_next_task_future; exact Eg.
+Qed.
+
+Lemma priority_pass_now : forall ring st st' o r, ms_priority_pass st ring = (st', o, r) -> ms_m_now st' = ms_m_now st.
+Proof.
+  induction ring as [|addr ring IH]; intros st st' o r; cbn [ms_priority_pass].
+  - intros H; inversion H; reflexivity.
+  - destruct (ms_find_assoc addr (ms_m_assocs st)) as [a|]; [|apply IH].
+    destruct (ms_priority_task _ _ _ a) as [[a1 o1] [t|]].
+    + intros H; inversion H; reflexivity.
+    + destruct (ms_priority_pass _ ring) as [[st2 o2] r2] eqn:Er. apply IH in Er.
+      intros H; inversion H; subst. exact Er.
+Qed.
+
+Lemma auto_pass_future : forall ring st e st' o t,
+  (forall y, e = Some y -> ms_m_now st < y) ->
+  ms_auto_pass st ring e = (st', o, MsSNotBefore t) -> ms_m_now st < t /\ ms_m_now st' = ms_m_now st.
+Proof.
+  induction ring as [|addr ring IH]; intros st e st' o t He; cbn [ms_auto_pass].
+  - destruct e as [y|]; intros H; inversion H; subst. split; [apply He; reflexivity|reflexivity].
+  - destruct (ms_find_assoc addr (ms_m_assocs st)) as [a|]; [|apply IH; exact He].
+    destruct (ms_assoc_next_task 3 _ _ a) as [[a1 o1] r1] eqn:Ea.
+    destruct r1 as [[|t1|nb]|].
+    + destruct (ms_auto_pass _ ring e) as [[st2 o2] r2] eqn:Er.
+      intros H; inversion H; subst. apply IH in Er; [exact Er|exact He].
+    + intros H; inversion H.
+    + destruct (ms_auto_pass _ ring _) as [[st2 o2] r2] eqn:Er.
+      intros H; inversion H; subst. apply IH in Er; [exact Er|]. cbn [ms_m_now ms_set_assocs].
+      apply assoc_next_task_future in Ea.
+      intros y Hy. destruct e as [z|]; cbn [ms_min_opt] in Hy; inversion Hy; subst.
+      * specialize (He z eq_refl). lia.
+      * exact Ea.
+    + intros H; inversion H.
+Qed.
+
+Lemma map_next_task_future st st' o t :
+  ms_map_next_task st = (st', o, MsSNotBefore t) -> ms_m_now st' < t.
+Proof.
+  unfold ms_map_next_task.
+  destruct (ms_priority_pass st (ms_m_ring st)) as [[st1 o1] [[addr t1]|]] eqn:Ep; [intros H; inversion H|].
+  destruct (ms_auto_pass st1 (ms_m_ring st1) None) as [[st2 o2] r2] eqn:Ea.
+  intros H; inversion H; subst. apply auto_pass_future in Ea; [|discriminate].
+  destruct Ea as [E1 E2]. rewrite E2. exact E1.
+Qed.
+
 Theorem schedule_OK st h st' o :
   INVA st h -> outstanding h = false -> ms_schedule st = (st', o) ->
   INVA st' (h ++ o) /\ INVP st' (h ++ o) /\ GOOD h o.
@@ -683,7 +751,8 @@ Proof.
   - intros H; inversion H; subst; clear H. split; [|split].
     + rewrite app_assoc. apply INVA_quiet; [apply INVA_phase; exact I1|repeat constructor].
     + unfold INVP. cbn. rewrite app_assoc, outstanding_app_neutral; [exact Out1|repeat constructor].
-    + apply GOOD_app; [exact G1|apply GOOD_nostart; repeat constructor].
+    + apply GOOD_app; [exact G1|]. apply GOOD_cons_start; [|constructor].
+      cbn. eapply map_next_task_future. exact Em.
   - intros H; inversion H; subst; clear H. split; [|split].
     + rewrite app_assoc. apply INVA_quiet; [apply INVA_phase; exact I1|repeat constructor].
     + unfold INVP. cbn. rewrite app_assoc, outstanding_app_neutral; [exact Out1|repeat constructor].
@@ -1468,19 +1537,216 @@ Proof.
               by (unfold ms_close_session in Ec; destruct (ms_fail_running st MsELink);
                   destruct (ms_reset_all _ _); inversion Ec; reflexivity);
             unfold INVP in IP1; rewrite Pd in IP1;
-            apply open_session_OK; [exact IA1|exact IP1|exact Eo]).
+            apply (open_session_OK st1); [exact IA1|exact IP1|exact Eo]).
   all: try (intros H; injection H as <- <-; apply OKR_nil; eapply INV_same; [| |exact I0]; reflexivity).
-  1: { destruct (ms_close_session st MsELink) as [st1 o1] eqn:Ec.
-            destruct (ms_open_session st1) as [st2 o2] eqn:Eo.
-            intros H; injection H as <- <-.
-            pose proof (close_session_OK _ _ _ _ _ I0 Hns Ec) as O1.
-            eapply OKR_seq; [exact O1|].
-            destruct O1 as [[IA1 IP1] _].
-            assert (Pd : ms_m_phase st1 = MsPDown).
-              { unfold ms_close_session in Ec; destruct (ms_fail_running st MsELink);
-                  destruct (ms_reset_all _ _); inversion Ec; reflexivity. }
-            unfold INVP in IP1; rewrite Pd in IP1.
-            Show.
-            apply open_session_OK; [exact IA1|exact IP1|exact Eo]. }
-  Show.
+Qed.
+
+(* ================================================================================================
+   5. Arbitrary event lists
+   ================================================================================================ *)
+
+Lemma INV_init : INV ms_m_init [].
+Proof.
+  split; [constructor|reflexivity].
+  - constructor.
+  - intros a X [].
+  - intros B _. split; reflexivity.
+  - intros a [].
+Qed.
+
+Theorem run_OK fuel : forall evs st h st' o,
+  INV st h -> ms_run fuel st evs = (st', o) -> OKR h st' o.
+Proof.
+  induction evs as [|e evs IH]; intros st h st' o I0; cbn [ms_run].
+  - intros H; injection H as <- <-. apply OKR_nil; exact I0.
+  - destruct (ms_mstep fuel st e) as [st1 o1] eqn:Es.
+    destruct (ms_run fuel st1 evs) as [st2 o2] eqn:Er.
+    intros H; injection H as <- <-.
+    pose proof (mstep_OK _ _ _ _ _ _ I0 Es) as O1.
+    eapply OKR_seq; [exact O1|]. eapply IH; [exact (proj1 O1)|exact Er].
+Qed.
+
+Corollary run_from_init fuel evs st h :
+  ms_run fuel ms_m_init evs = (st, h) -> INV st h /\ GOOD [] h.
+Proof. intros H. exact (run_OK fuel evs _ [] _ _ INV_init H). Qed.
+
+(* ---- reading the history predicates ---------------------------------------------------------------- *)
+
+(* `hist X A h` holds exactly when the last observation with an effect on X for A establishes it
+   (for HC also when there is none) *)
+Lemma hfold_false_true X A h : hfold X A false h = true ->
+  exists h1 x h2, h = h1 ++ x :: h2 /\ obs_effect X A x = Some true /\
+                  Forall (fun y => obs_effect X A y <> Some false) h2.
+Proof.
+  induction h as [|y h IH] using rev_ind; [discriminate|].
+  rewrite hfold_app. unfold hfold at 1. cbn [fold_left]. unfold hstep.
+  destruct (obs_effect X A y) as [[|]|] eqn:E.
+  - intros _. exists h, y, []. split; [reflexivity|]. split; [exact E|constructor].
+  - discriminate.
+  - intros H. destruct (IH H) as (h1 & x & h2 & -> & Ex & F).
+    exists h1, x, (h2 ++ [y]). split; [rewrite <- app_assoc; reflexivity|]. split; [exact Ex|].
+    apply Forall_app; split; [exact F|]. constructor; [congruence|constructor].
+Qed.
+
+Lemma hist_established X A h : X <> HC -> hist X A h = true ->
+  exists h1 x h2, h = h1 ++ x :: h2 /\ obs_effect X A x = Some true /\
+                  Forall (fun y => obs_effect X A y <> Some false) h2.
+Proof. intros HX. unfold hist. destruct X; try congruence; apply hfold_false_true. Qed.
+
+(* after a restart indication nothing holds for A until it is established again *)
+Lemma hist_after_restart X A h1 t h2 : X <> HD ->
+  hist X A (h1 ++ MsORestartSeen t A :: h2) = hfold X A false h2.
+Proof.
+  intros HX. unfold hist. rewrite hfold_app.
+  change (MsORestartSeen t A :: h2) with ([MsORestartSeen t A] ++ h2). rewrite hfold_app.
+  f_equal. unfold hfold. cbn [fold_left]. unfold hstep. cbn [obs_effect]. rewrite N.eqb_refl.
+  destruct X; try congruence; reflexivity.
+Qed.
+
+(* ================================================================================================
+   6. C17 — start-up order, restart order, gating of unsolicited data (trace form)
+   ================================================================================================ *)
+
+(* every task start in any run happens under the guard of its kind: no request outstanding, and
+     DISABLE_UNSOLICITED: every restart indication of this connection has been cleared;
+     integrity poll:      that, and DISABLE_UNSOLICITED done in this connection (when configured);
+     ENABLE_UNSOLICITED:  that, and the integrity poll completed in this connection and since the
+                          last restart indication (when configured);
+     event scan, periodic poll, keep-alive: that, and ENABLE_UNSOLICITED done likewise *)
+Theorem startup_order : forall fuel evs st h h1 x h2,
+  ms_run fuel ms_m_init evs = (st, h) -> h = h1 ++ x :: h2 -> start_guard h1 x.
+Proof.
+  intros fuel evs st h h1 x h2 Hr Hh. destruct (run_from_init _ _ _ _ Hr) as [_ G].
+  exact (G h1 x h2 Hh).
+Qed.
+
+Definition no_close (h : list ms_obs) : Prop :=
+  Forall (fun y => match y with MsOClosed _ _ => False | _ => True end) h.
+
+Lemma hfold_needs_setter X A h : hfold X A false h = true ->
+  exists x, In x h /\ obs_effect X A x = Some true.
+Proof.
+  intros H. destruct (hfold_false_true _ _ _ H) as (h1 & x & h2 & -> & Ex & _).
+  exists x. split; [apply in_or_app; right; left; reflexivity|exact Ex].
+Qed.
+
+(* after a restart indication for A, in the same connection: an integrity poll, ENABLE_UNSOLICITED,
+   event scan, periodic poll or keep-alive of A starts only after the restart bit was cleared;
+   ENABLE_UNSOLICITED moreover only after an integrity poll completed in between, and polls,
+   event scans and keep-alives only after ENABLE_UNSOLICITED was done in between as well *)
+Theorem restart_order : forall fuel evs st h h1 tr A h2 t k fc s h3 c,
+  ms_run fuel ms_m_init evs = (st, h) ->
+  h = h1 ++ MsORestartSeen tr A :: h2 ++ MsOStart t A k fc s :: h3 ->
+  cfg_in (h1 ++ MsORestartSeen tr A :: h2) A = Some c ->
+  match k with
+  | MsKDisableUnsol | MsKIntegrity => exists x, In x h2 /\ obs_effect HC A x = Some true
+  | MsKEnableUnsol =>
+      (exists x, In x h2 /\ obs_effect HC A x = Some true) /\
+      (ms_cl_any (ms_c_integrity c) = true -> exists x, In x h2 /\ obs_effect HI A x = Some true)
+  | MsKEventScan | MsKPoll =>
+      (exists x, In x h2 /\ obs_effect HC A x = Some true) /\
+      (ms_cl_any (ms_c_integrity c) = true -> exists x, In x h2 /\ obs_effect HI A x = Some true) /\
+      (ms_ev_any (ms_c_enable c) = true -> exists x, In x h2 /\ obs_effect HE A x = Some true)
+  | _ => True
+  end.
+Proof.
+  intros fuel evs st h h1 tr A h2 t k fc s h3 c Hr Hh Hc.
+  assert (G : start_guard (h1 ++ MsORestartSeen tr A :: h2) (MsOStart t A k fc s)).
+  { eapply startup_order; [exact Hr|]. rewrite Hh, <- app_assoc. reflexivity. }
+  destruct G as [_ G]. specialize (G c Hc).
+  assert (R : forall X, X <> HD -> hist X A (h1 ++ MsORestartSeen tr A :: h2) = true ->
+              exists x, In x h2 /\ obs_effect X A x = Some true).
+  { intros X HX HH. rewrite hist_after_restart in HH by exact HX. apply hfold_needs_setter. exact HH. }
+  destruct k; cbn [kind_guard] in G; auto.
+  - destruct G as (G1 & G2 & G3 & G4). split; [apply R; [discriminate|exact G1]|].
+    split; [intros E; apply R; [discriminate|auto]|intros E; apply R; [discriminate|auto]].
+  - destruct G as (G1 & _). apply R; [discriminate|exact G1].
+  - destruct G as (G1 & G2 & G3 & G4). split; [apply R; [discriminate|exact G1]|].
+    split; [intros E; apply R; [discriminate|auto]|intros E; apply R; [discriminate|auto]].
+  - destruct G as (G1 & G2 & G3). split; [apply R; [discriminate|exact G1]|].
+    intros E; apply R; [discriminate|auto].
+  - apply R; [discriminate|exact G].
+Qed.
+
+(* ---- unsolicited data is gated by the integrity poll ------------------------------------------------ *)
+
+Definition unsol_evidence (src : N) (x : ms_obs) : Prop :=
+  match x with
+  | MsOCb _ a MsRtUnsol _ => a = src
+  | MsOUnsol _ a _ _ => a = src
+  | _ => False
+  end.
+
+Definition sched_obs (x : ms_obs) : Prop :=
+  match x with
+  | MsORes _ _ _ | MsOStart _ _ _ _ _ | MsOTx _ _ | MsOTxLink _ _ _ | MsOSleep _ _ | MsOStall _ => True
+  | _ => False
+  end.
+
+Lemma schedule_obs st st' o : ms_schedule st = (st', o) -> Forall sched_obs o.
+Proof.
+  unfold ms_schedule. destruct (ms_map_next_task st) as [[st1 o1] r] eqn:Em.
+  apply map_next_task_res in Em.
+  assert (R : Forall sched_obs o1) by (revert Em; apply Forall_impl; intros x; destruct x; cbn; auto).
+  destruct r as [addr t|nb| |]; try (intros H; injection H as <- <-; apply Forall_app; split; [exact R|repeat constructor]).
+  unfold ms_start_task.
+  destruct t; try (intros H; injection H as <- <-; apply Forall_app; split; [exact R|repeat constructor]).
+  all: unfold ms_send_request; destruct (ms_find_assoc addr (ms_m_assocs st1));
+    intros H; injection H as <- <-; apply Forall_app; split; try exact R; repeat constructor.
+Qed.
+
+Lemma sched_obs_not_evidence src o x : Forall sched_obs o -> In x o -> unsol_evidence src x -> False.
+Proof.
+  intros F Hin. rewrite Forall_forall in F. specialize (F x Hin). destruct x; cbn in *; auto.
+Qed.
+
+Lemma sched_obs_not_seen o t A : Forall sched_obs o -> ~ In (MsORestartSeen t A) o.
+Proof. intros F Hin. rewrite Forall_forall in F. exact (F _ Hin). Qed.
+
+Lemma touch_find st src a : ms_find_assoc src (ms_m_assocs st) = Some a ->
+  ms_find_assoc src (ms_m_assocs (ms_touch st src)) = Some (ms_link_activity (ms_m_now st) a).
+Proof.
+  intros Hf. unfold ms_touch, ms_update_assoc. rewrite Hf. cbn [fst ms_set_assocs ms_m_assocs].
+  pose proof (find_assoc_some _ _ _ Hf) as [Ia Ea].
+  apply find_put; [|exact Ea]. rewrite <- Ea. apply in_map. exact Ia.
+Qed.
+
+(* whatever the session is doing when an unsolicited response arrives, it is handed to
+   Association::handle_unsolicited_response of the association it comes from; everything else the
+   step emits is the scheduler's *)
+Lemma on_rx_unsol st src f a st' o :
+  ms_r_uns f = true -> ms_find_assoc src (ms_m_assocs st) = Some a ->
+  ms_on_rx st src (MsRxResp f) = (st', o) ->
+  o = [] \/
+  exists a1 ou rest, ms_handle_unsolicited (ms_m_now st) f (ms_link_activity (ms_m_now st) a) = (a1, ou) /\
+                     o = ou ++ rest /\
+                     Forall (fun x => sched_obs x \/ match x with MsOLinkEnd _ _ => True | _ => False end) rest.
+Proof.
+  intros Hu Hf. pose proof (touch_find _ _ _ Hf) as Ht.
+  assert (U : forall st1 o1, ms_unsolicited (ms_touch st src) src f = (st1, o1) ->
+              exists a1, ms_handle_unsolicited (ms_m_now st) f (ms_link_activity (ms_m_now st) a) = (a1, o1)).
+  { intros st1 o1. unfold ms_unsolicited, ms_update_assoc. rewrite Ht.
+    replace (ms_m_now (ms_touch st src)) with (ms_m_now st)
+      by (unfold ms_touch, ms_update_assoc; rewrite Hf; reflexivity).
+    destruct (ms_handle_unsolicited _ _ _) as [a1 ou]. intros H; inversion H; subst. exists a1. reflexivity. }
+  unfold ms_on_rx.
+  destruct (ms_m_phase st) as [|u|[dest t k fc0 seq dl|dest t seq first dl|dest p dl]|].
+  - intros H; injection H as <- <-. left; reflexivity.
+  - unfold ms_rx_idle. rewrite Hu.
+    destruct (ms_unsolicited (ms_touch st src) src f) as [st1 o1] eqn:Eu.
+    destruct (ms_task_done st1) as [st2 o2] eqn:Ed. intros H; injection H as <- <-.
+    destruct (U _ _ eq_refl) as (a1 & Ha1). right. exists a1, o1, o2. split; [exact Ha1|]. split; [reflexivity|].
+    unfold ms_task_done in Ed. apply schedule_obs in Ed. revert Ed. apply Forall_impl. auto.
+  - unfold ms_rx_nonread. rewrite Hu. intros Eu. destruct (U _ _ Eu) as (a1 & Ha1).
+    right. exists a1, o, []. split; [exact Ha1|]. split; [rewrite app_nil_r; reflexivity|constructor].
+  - unfold ms_rx_read. rewrite Hu. intros Eu. destruct (U _ _ Eu) as (a1 & Ha1).
+    right. exists a1, o, []. split; [exact Ha1|]. split; [rewrite app_nil_r; reflexivity|constructor].
+  - unfold ms_rx_link. rewrite Hu.
+    destruct (ms_unsolicited (ms_touch st src) src f) as [st1 o1] eqn:Eu.
+    destruct (ms_task_done st1) as [st2 o2] eqn:Ed. intros H; injection H as <- <-.
+    destruct (U _ _ eq_refl) as (a1 & Ha1). right.
+    eexists a1, o1, _. split; [exact Ha1|]. split; [reflexivity|].
+    unfold ms_task_done in Ed. apply schedule_obs in Ed.
+    apply Forall_app; split.
+    + destruct p; repeat constructor; cbn; auto. Show.
 Admitted.
